@@ -6,25 +6,26 @@ import (
 	"os"
 	"path/filepath"
 	"sort"
+	"strings"
 
 	"github.com/youzan/ZanRedisDB/wal/walpb"
 )
 
 // Witness is what a violation records and what --replay re-executes.
 type Witness struct {
-	Scenario string `json:"scenario"` // history | purge-live
-	History  int    `json:"history"`
-	Cfg      Config `json:"cfg"`
-	Ops      []Op   `json:"ops"`
-	ImageSeq int    `json:"image_seq"`          // which kill image (ordinal of the image within the run of Ops)
-	Mid      string `json:"mid,omitempty"`      // hook point inside the call, if the image was taken there
-	Fault    Fault  `json:"fault"`              // how the on-disk image is derived from it
-	Mode     string `json:"mode"`               // node (ValidSnapshotEntries, Open, ReadAll, Repair) | read (OpenForRead) | live
-	Start    *Snap  `json:"start,omitempty"`    // snapshot opened at when not chosen like the node does
-	MinP     int    `json:"must_survive_recs"`  // |S|
-	NRecs    int    `json:"records_handed_over"` // |L|
-	Outcome  string `json:"outcome"`
-	PurgeSeed int64 `json:"purge_seed,omitempty"`
+	Scenario  string `json:"scenario"` // history | purge-live
+	History   int    `json:"history"`
+	Cfg       Config `json:"cfg"`
+	Ops       []Op   `json:"ops"`
+	ImageSeq  int    `json:"image_seq"`           // which kill image (ordinal of the image within the run of Ops)
+	Mid       string `json:"mid,omitempty"`       // hook point inside the call, if the image was taken there
+	Fault     Fault  `json:"fault"`               // how the on-disk image is derived from it
+	Mode      string `json:"mode"`                // node (ValidSnapshotEntries, Open, ReadAll, Repair) | read (OpenForRead) | live
+	Start     *Snap  `json:"start,omitempty"`     // snapshot opened at when not chosen like the node does
+	MinP      int    `json:"must_survive_recs"`   // |S|
+	NRecs     int    `json:"records_handed_over"` // |L|
+	Outcome   string `json:"outcome"`
+	PurgeSeed int64  `json:"purge_seed,omitempty"`
 }
 
 // stats are accumulated per history and merged into the evidence at its end.
@@ -46,15 +47,15 @@ func (s *stats) mx(k string, v int64) {
 
 // hctx is the evaluation context of one history (one worker).
 type hctx struct {
-	e     *engine
-	id    int
-	dir   string
-	wd    *workdir
-	st    *stats
-	rng   *rand.Rand
-	viol  int
-	depth int
-	conts []contCand
+	e        *engine
+	id       int
+	dir      string
+	wd       *workdir
+	st       *stats
+	rng      *rand.Rand
+	viol     int
+	depth    int
+	conts    []contCand
 	label    string // appended to the fault kind in signatures
 	scenario string
 }
@@ -70,7 +71,6 @@ type contCand struct {
 func (h *hctx) stop() bool { return h.viol >= 3 || h.e.c.Violations() >= 30 }
 
 func (h *hctx) report(r *runner, im *Image, f Fault, mode string, start *Snap, minP int, out *Outcome, v verdict) {
-	h.viol++
 	kind := f.Kind
 	if f.Kind == "bitflip" {
 		kind = "bitflip-" + f.What
@@ -87,6 +87,13 @@ func (h *hctx) report(r *runner, im *Image, f Fault, mode string, start *Snap, m
 		kind += "/open-for-read"
 	}
 	sig := v.Sig + "/" + kind
+	if tr := typeTransition(f); tr != "" {
+		// one root cause, listed as a known finding: the record's type field (and
+		// its protobuf tag byte) is outside the record checksum. Only single-bit
+		// flips of exactly those two bytes are classified here.
+		sig = "record-type-not-checksummed/" + tr
+		v.Msg = "[" + v.Sig + "] " + v.Msg
+	}
 	scen := "history"
 	if h.scenario != "" {
 		scen = h.scenario
@@ -95,7 +102,36 @@ func (h *hctx) report(r *runner, im *Image, f Fault, mode string, start *Snap, m
 		Start: start, MinP: minP, NRecs: im.NRecs,
 		Outcome: fmt.Sprintf("%s stage=%s err=%s repaired=%v(first error %s) start=%v vse=%v", out.Class, out.Stage, out.Err, out.Repaired, out.FirstErr, out.Start, out.VSE)}
 	sum := fmt.Sprintf("history %d (seg=%d opt=%v class=%s) image #%d after call %d (%s%s), fault %s: %s", h.id, r.cfg.Seg, im.Opt, r.cfg.Class, im.Seq, im.Call, im.Op, midName(im), f.String(), v.Msg)
-	h.e.c.Violation(sig, sum, w)
+	if h.e.c.Violation(sig, sum, w) {
+		h.viol++ // listed (known) findings do not stop the enumeration
+	}
+}
+
+// typeTransition names what a single-bit flip of a record's type byte (or of
+// the tag byte in front of it) turns the record into: "state->entry",
+// "crc->snapshot", "entry->type6", "snapshot-tag". Empty for any other fault.
+func typeTransition(f Fault) string {
+	if f.Kind != "bitflip" {
+		return ""
+	}
+	if strings.HasPrefix(f.What, "tag:") {
+		return strings.TrimPrefix(f.What, "tag:") + "-tag"
+	}
+	if !strings.HasPrefix(f.What, "type:") {
+		return ""
+	}
+	from := strings.TrimPrefix(f.What, "type:")
+	for t, n := range recTypeName {
+		if n == from {
+			nt := t ^ (1 << f.Bit)
+			to, ok := recTypeName[nt]
+			if !ok {
+				to = fmt.Sprintf("type%d", nt)
+			}
+			return from + "->" + to
+		}
+	}
+	return ""
 }
 
 func midName(im *Image) string {
@@ -236,9 +272,53 @@ type tearPlan struct {
 	offsets    int64
 }
 
+// budgets per enumeration depth
+type tearBudget struct {
+	allIfBelow  int64 // enumerate every offset when the region is at most this long
+	lastTwoMax  int64 // quick rule: every offset of the last two records when they are at most this long
+	lastTwoSamp int   // ... else this many sampled offsets inside them
+	restSamp    int   // sampled offsets in the rest of the region
+	frames      int   // structural offsets (boundaries, length field, header, padding +-1) of the last n frames
+	sectors     int   // sector boundaries (+-1) used as truncation points
+	zeroSectors int   // zero-fill from that many sector boundaries
+	zeroBytes   int   // zero-fill from that many sampled byte offsets
+	windows     int   // windows for the later-sector-reached-disk patterns
+}
+
+var budgets = map[string]tearBudget{
+	"thorough": {allIfBelow: 32 << 10, restSamp: 768, frames: 1 << 30, sectors: 256, zeroSectors: 64, zeroBytes: 48, windows: 64},
+	"quick":    {lastTwoMax: 1200, lastTwoSamp: 300, restSamp: 64, frames: 8, sectors: 8, zeroSectors: 12, zeroBytes: 12, windows: 6},
+	"light":    {restSamp: 16, frames: 3, sectors: 4, zeroSectors: 4, zeroBytes: 4, windows: 2},
+}
+
+// pickSome keeps at most n of the sorted values: the first, the last three and a sample.
+func pickSome(rng *rand.Rand, v []int64, n int) []int64 {
+	if len(v) <= n {
+		return v
+	}
+	keep := map[int64]bool{v[0]: true}
+	for i := len(v) - 1; i >= 0 && i >= len(v)-3 && len(keep) < n; i-- {
+		keep[v[i]] = true
+	}
+	for len(keep) < n {
+		keep[v[rng.Intn(len(v))]] = true
+	}
+	out := make([]int64, 0, n)
+	for _, x := range v {
+		if keep[x] {
+			out = append(out, x)
+		}
+	}
+	return out
+}
+
 func (h *hctx) planTears(rg region, mode string) tearPlan {
 	var tp tearPlan
 	rng := h.rng
+	bd, ok := budgets[mode]
+	if !ok {
+		bd = budgets["light"]
+	}
 	lo, hi := rg.Lo, rg.Hi
 	// frames that intersect the region
 	var fr []Frame
@@ -247,62 +327,62 @@ func (h *hctx) planTears(rg region, mode string) tearPlan {
 			fr = append(fr, f)
 		}
 	}
+	var bounds []int64 // sector boundaries inside the region
+	for b := (lo + sector - 1) / sector * sector; b < hi; b += sector {
+		bounds = append(bounds, b)
+	}
 	offs := map[int64]bool{}
-	structural := func() {
-		for _, f := range fr {
-			for _, x := range []int64{f.Off - 1, f.Off, f.Off + 1, f.Off + 7, f.Off + 8, f.Off + 9, f.Off + 10, f.PadOff - 1, f.PadOff, f.End - 1} {
-				if x >= lo && x < hi {
-					offs[x] = true
-				}
-			}
-			if f.DataLen > 0 && f.DataOff >= lo && f.DataOff < hi {
-				offs[f.DataOff] = true
-			}
-		}
-		for b := (lo + sector - 1) / sector * sector; b < hi; b += sector {
-			for _, x := range []int64{b - 1, b, b + 1} {
-				if x >= lo && x < hi {
-					offs[x] = true
-				}
-			}
+	add := func(x int64) {
+		if x >= lo && x < hi {
+			offs[x] = true
 		}
 	}
-	switch mode {
-	case "thorough":
-		if hi-lo <= h.e.exhaustCap {
-			for x := lo; x < hi; x++ {
-				offs[x] = true
-			}
-			tp.exhaustive = true
-		} else {
-			structural()
-			sampleInts(rng, lo, hi, 768, offs)
+	if bd.allIfBelow > 0 && hi-lo <= bd.allIfBelow {
+		for x := lo; x < hi; x++ {
+			offs[x] = true
 		}
-	case "quick":
-		// every offset of the last two records, 64 sampled offsets of the rest
+		tp.exhaustive = true
+	} else {
+		ff := fr
+		if len(ff) > bd.frames {
+			ff = ff[len(ff)-bd.frames:]
+		}
+		for _, f := range ff {
+			for _, x := range []int64{f.Off - 1, f.Off, f.Off + 1, f.Off + 7, f.Off + 8, f.Off + 9, f.Off + 10, f.PadOff - 1, f.PadOff, f.End - 1} {
+				add(x)
+			}
+			if f.DataLen > 0 {
+				add(f.DataOff)
+			}
+		}
+		for _, b := range pickSome(rng, bounds, bd.sectors) {
+			add(b - 1)
+			add(b)
+			add(b + 1)
+		}
 		cut := lo
-		if n := len(fr); n >= 2 {
-			cut = fr[n-2].Off
-		} else if n == 1 {
-			cut = fr[0].Off
-		}
-		if cut < lo {
-			cut = lo
-		}
-		if hi-cut <= 2600 {
-			for x := cut; x < hi; x++ {
-				offs[x] = true
+		if bd.lastTwoMax > 0 {
+			// every offset of the last two records
+			if n := len(fr); n >= 2 {
+				cut = fr[n-2].Off
+			} else if n == 1 {
+				cut = fr[0].Off
 			}
-			tp.exhaustive = cut == lo
+			if cut < lo {
+				cut = lo
+			}
+			if hi-cut <= bd.lastTwoMax {
+				for x := cut; x < hi; x++ {
+					offs[x] = true
+				}
+				tp.exhaustive = cut == lo
+			} else {
+				sampleInts(rng, cut, hi, bd.lastTwoSamp, offs)
+			}
+			sampleInts(rng, lo, cut, bd.restSamp, offs)
 		} else {
-			structural()
-			sampleInts(rng, cut, hi, 400, offs)
+			sampleInts(rng, lo, hi, bd.restSamp, offs)
 		}
-		sampleInts(rng, lo, cut, 64, offs)
-		structural()
-	default: // "light" (most calls of the quick tier, after-crash continuations): structural offsets and a sample
-		structural()
-		sampleInts(rng, lo, hi, 24, offs)
 	}
 	sorted := make([]int64, 0, len(offs))
 	for x := range offs {
@@ -313,25 +393,16 @@ func (h *hctx) planTears(rg region, mode string) tearPlan {
 	for _, x := range sorted {
 		tp.faults = append(tp.faults, Fault{Kind: "trunc-eof", File: rg.File, Off: x, Drop: rg.Drop})
 	}
-	// zero-fill (the file keeps its preallocated length) from every sector boundary
-	first := lo / sector * sector
-	for b := first; b < hi; b += sector {
-		x := b
-		if x < lo {
-			continue // the sector holds synced bytes; as a whole it is covered by the subset patterns
-		}
-		tp.faults = append(tp.faults, Fault{Kind: "zero-sector", File: rg.File, Off: x, Drop: rg.Drop, Size: rg.Size})
+	// zero-fill (the file keeps its preallocated length) from sector boundaries
+	// (a first sector that also holds synced bytes is covered by the subset patterns)
+	for _, b := range pickSome(rng, bounds, bd.zeroSectors) {
+		tp.faults = append(tp.faults, Fault{Kind: "zero-sector", File: rg.File, Off: b, Drop: rg.Drop, Size: rg.Size})
 	}
 	// zero-fill from sampled byte offsets (not sector aligned)
 	zo := map[int64]bool{}
-	nz := 12
-	if mode == "thorough" {
-		nz = 48
-		if hi-lo <= 1024 {
-			nz = 1024
-		}
-	} else if mode != "quick" {
-		nz = 6
+	nz := bd.zeroBytes
+	if mode == "thorough" && hi-lo <= 1024 {
+		nz = 1024
 	}
 	sampleInts(rng, lo, hi, nz, zo)
 	zs := make([]int64, 0, len(zo))
@@ -344,33 +415,11 @@ func (h *hctx) planTears(rg region, mode string) tearPlan {
 	}
 	// later sector reached disk, earlier did not: windows of up to 4 sectors
 	lastS := (hi - 1) / sector
-	firstS := lo / sector
 	var wins []int64
-	for s := firstS; s <= lastS; s++ {
+	for s := lo / sector; s <= lastS; s++ {
 		wins = append(wins, s)
 	}
-	maxW := 10
-	if mode == "thorough" {
-		maxW = 64
-	} else if mode != "quick" {
-		maxW = 4
-	}
-	if len(wins) > maxW {
-		keep := map[int64]bool{wins[0]: true, wins[len(wins)-1]: true}
-		if len(wins) > 4 {
-			keep[wins[len(wins)-4]] = true
-		}
-		for len(keep) < maxW {
-			keep[wins[rng.Intn(len(wins))]] = true
-		}
-		wins = wins[:0]
-		for s := firstS; s <= lastS; s++ {
-			if keep[s] {
-				wins = append(wins, s)
-			}
-		}
-	}
-	for _, s := range wins {
+	for _, s := range pickSome(rng, wins, bd.windows) {
 		n := int(lastS - s + 1)
 		if n > 4 {
 			n = 4
@@ -423,10 +472,14 @@ func prepare(r *runner, hid int, mode string, depth int, label, scenario string,
 				w.tear = tearMode(mode, hid, im, rng)
 				for _, rg := range regions {
 					n := rg.Hi - rg.Lo
-					if w.tear == "light" && n > 100 {
-						n = 100
+					if w.tear == "light" && n > 80 {
+						n = 80
+					} else if w.tear == "quick" && n > 1500 {
+						n = 1500
+					} else if n > 33000 {
+						n = 1500
 					}
-					w.cost += n * (1 + int64(len(im.Files)))
+					w.cost += n * (int64(len(im.Files)) + (rg.Hi-rg.Lo)/4096)
 				}
 			}
 			if key != "" {
@@ -464,20 +517,24 @@ func prepare(r *runner, hid int, mode string, depth int, label, scenario string,
 
 // tearMode decides how densely the unsynced region of one image is enumerated.
 // thorough tier: every offset (regions up to the cap) for every call of every
-// third history and for a quarter of the calls of the others, the quick rule
-// elsewhere. quick tier: the quick rule (every offset of the last two records
-// + 64 sampled) for a quarter of the calls and for every call that cut a
-// segment or wrote a snapshot marker, structural offsets + 24 sampled elsewhere.
+// eighth history and for 5% of the calls of the others, the quick rule (every
+// offset of the last two records + 64 sampled) for another 25%, structural
+// offsets + a sample elsewhere. quick tier: the quick rule for a quarter of
+// the calls and for every call that cut a segment or wrote a snapshot marker,
+// structural offsets + a sample elsewhere.
 func tearMode(mode string, hid int, im *Image, rng *rand.Rand) string {
-	pick := rng.Intn(4) == 0
+	u := rng.Intn(100)
 	switch mode {
 	case "thorough":
-		if hid%3 == 0 || pick {
+		switch {
+		case hid%8 == 0 || u < 5:
 			return "thorough"
+		case u < 30 || im.cut || im.Op == "snap":
+			return "quick"
 		}
-		return "quick"
+		return "light"
 	case "quick":
-		if pick || im.cut || im.Op == "snap" {
+		if u < 25 || im.cut || im.Op == "snap" {
 			return "quick"
 		}
 		return "light"
@@ -772,6 +829,9 @@ func (h *hctx) liveReport(r *runner) {
 	if r.liveViol != nil && len(r.imgs) > 0 {
 		im := r.imgs[len(r.imgs)-1]
 		h.report(r, im, Fault{Kind: "clean"}, "live", nil, im.NRecs, r.liveOut, *r.liveViol)
+	} else if r.deadOut != nil && os.Getenv("VERIF_C05_DEBUG") != "" && len(r.imgs) > 0 {
+		im := r.imgs[len(r.imgs)-1]
+		h.report(r, im, Fault{Kind: "clean"}, "live", nil, im.NRecs, r.deadOut, verdict{Sig: "DEBUG-clean-close-then-reopen-fails", Msg: r.err.Error()})
 	} else if r.err != nil {
 		h.e.c.Inconclusive(fmt.Sprintf("history %d (depth %d) could not be executed: %v", h.id, h.depth, r.err))
 		h.st.add("histories_not_executable", 1)
